@@ -103,26 +103,26 @@ macro "nd_step" : tactic => `(tactic| with_reducible first
   | (dsimp only))
 macro "nd" : tactic => `(tactic| repeat' nd_step)
 
-theorem ND_accessSingle (docs acc v) : ND (accessSingle docs acc v) := by
+theorem ND_accessSingle (now docs acc v) : ND (accessSingle now docs acc v) := by
   unfold accessSingle; nd
 
 theorem ND_returnType (elem acc) : ND (returnType elem acc) := by
   unfold returnType; nd
 
-theorem ND_accessElem (docs acc v) : ND (accessElem docs acc v) := by
+theorem ND_accessElem (now docs acc v) : ND (accessElem now docs acc v) := by
   unfold accessElem
-  apply ND_bind (ND_accessSingle _ _ _)
+  apply ND_bind (ND_accessSingle _ _ _ _)
   nd
 
-theorem ND_evalAccessor (docs q v) : ND (evalAccessor docs q v) := by
+theorem ND_evalAccessor (now docs q v) : ND (evalAccessor now docs q v) := by
   unfold evalAccessor
   split
   · exact ND_ok _
   · apply ND_bind (ND_returnType _ _)
     intro rt
-    apply ND_bind (ND_mapO _ _ (fun a _ => ND_accessElem _ _ a))
+    apply ND_bind (ND_mapO _ _ (fun a _ => ND_accessElem _ _ _ a))
     intro rs; exact ND_ok _
-  · exact ND_accessSingle _ _ _
+  · exact ND_accessSingle _ _ _ _
 
 theorem ND_questionList (recv vars) : ND (questionList recv vars) := by
   unfold questionList; nd
@@ -204,6 +204,7 @@ theorem ND_mapDeep (rt : Ty) (f : Val → Outcome Val) (hf : ∀ x, ND (f x)) : 
   | .str _ => by rw [mapDeep_nonslice _ _ _ rfl]; exact hf _
   | .int _ => by rw [mapDeep_nonslice _ _ _ rfl]; exact hf _
   | .bool _ => by rw [mapDeep_nonslice _ _ _ rfl]; exact hf _
+  | .float _ _ => by rw [mapDeep_nonslice _ _ _ rfl]; exact hf _
   | .someBool => by rw [mapDeep_nonslice _ _ _ rfl]; exact hf _
   | .doc _ => by rw [mapDeep_nonslice _ _ _ rfl]; exact hf _
   | .node _ _ => by rw [mapDeep_nonslice _ _ _ rfl]; exact hf _
